@@ -821,7 +821,15 @@ impl Interp {
                 let unique = cc.strong_count() == 1;
                 let must_ok = unique && self.cb_depth.get() == 0;
                 let must_err = !unique || self.fd_depth.get() > 0;
+                // ... and on Err nothing changes: same pointer, same counts, same buffer, same finalization state
+                let before = (hooks::snapshot(&cc), state::buffered_objects_count().ok(), cc.strong_count());
                 let res = Cc::try_unwrap(cc);
+                if let Err(back) = &res {
+                    let after = (hooks::snapshot(back), state::buffered_objects_count().ok(), back.strong_count());
+                    if before != after {
+                        ev!("!unwrap-err-changed:{}:{}", id, if before.1 != after.1 { "buffer" } else if before.2 != after.2 { "count" } else { "object-state" });
+                    }
+                }
                 if (must_ok && res.is_err()) || (must_err && res.is_ok()) {
                     ev!("!unwrap-wrong:{}:{}", id, if must_ok { "err-but-unique" } else { "ok-but-shared-or-in-callback" });
                 }
@@ -1379,8 +1387,10 @@ impl Interp {
                 }
             }
         }
-        if is_tracing() || self.cb_depth.get() != 0 {
-            ev!("!not-idle-after-op");
+        // C07: between top-level operations the collector is idle — no phase flag is left set, whatever panicked
+        let flags = hooks::phase_flags().unwrap_or((false, false, false));
+        if is_tracing() || self.cb_depth.get() != 0 || flags.0 || flags.1 || flags.2 {
+            ev!("!not-idle-after-op:{}{}{}", b01(flags.0), b01(flags.1), b01(flags.2));
         }
         let ret = match res {
             Ok(r) => r.str(),
